@@ -58,25 +58,26 @@ P = {
 W = ("abstract evaluation (gwfsa's own interpreter of a Python subset over symbolic objects, every external effect a recording hook; /repo is never imported or run) of the "
      "deciding function / whole command / task coroutine over a finite witness table incl. fault and cancellation injection; a structural verdict is overridden only by an agreeing evaluation")
 ADD = {
- "C01": ("; should_run evaluated over 28 witness rows (ties, orders, missing/no outputs, spec changed); the use_spec_hashes switch read-back; snapshot per instance, follows symlinks; spec store loads what was saved", W),
- "C02": ("; filter_names evaluated over 15 pattern sets x list/one-shot iterables; opaque job ids (0 is a valid id); composition with C01 for the 'stale' column", W),
- "C03": ("; relative results must be anchored (abspath); Graph.from_targets evaluated over 11 witness workflows in several definition orders; non-dict Mappings flatten to their values", W),
- "C04": ("; witness workflows (self-loop, unreachable 2-cycle, 3-cycle behind a tail, duplicate producers across spellings, missing source) evaluated through Graph.from_targets; stat snapshot per instance and per call", W),
- "C05": ("; the group callback evaluated for found / not found / prompt declined; name filter over list and one-shot iterables; flag defaults", W),
- "C07": ("; the pool server's connection handler, the client and enqueue_task evaluated on one session; composition with C02.R2 and C08.R3", W),
- "C08": ("; Slurm state query evaluated with failing sacct/squeue; factory default accounting on; config switch read-back; store load/close round trip", W),
- "C09": ("; state-query failures of all three cluster backends propagate; load(file)=table and close-after-submit scenarios evaluated", W),
- "C10": ("; clean_logs config switch read-back; Slurm log_mode factory default", W),
- "C11": ("; enqueue_task hands deps on unchanged (no rebinding); the task coroutine evaluated over dependency outcomes incl. late submission", W),
- "C12": ("; composition with C13.R6: a released core corresponds to a SIGKILLed, reaped process group; semaphore balance of the evaluated coroutine under a cancellation at every await", W),
- "C13": ("; SIGKILL to the group on every exit with a process; no use of the process on the no-process path; no bare wait() on undrained PIPEs; RUNNING while the process runs; enqueue registers SUBMITTED", W),
- "C14": ("; nothing shared between connections is held across a client-paced await; connection handler / client / enqueue evaluated on well-formed, EOF-only, shutdown and unknown-kind sessions", W),
- "C15": ("; name filter witness table; --all/--force flag defaults", W),
- "C16": ("; name filter witness table (through the shared cone-selection rule)", W),
- "C17": ("; the cancel command evaluated over selections x prompt x each failure kind at each position; a refused cancel leaves the job tracked; scancel's exit-0 failure output raises BackendError; server/client cancel_task path", W),
- "C18": ("; config switch read-back; run inside the store's with-block; store load round trip", W),
- "C19": ("; find_workflow evaluated over 10 directory-tree rows incl. termination at the root; no read of the invoking directory at import time; the group callback's locations evaluated", W),
- "C20": ("; cli.main evaluated over the full flag x config x env tables for backend (4) and colour (18), verbosity reaches logging; create_backend evaluated; accounting switch decides sacct also under failure; config file location", W),
+ "C01": ("; should_run evaluated over 28 witness rows (ties, orders, missing/no outputs, spec changed); the use_spec_hashes switch read-back; snapshot per instance, follows symlinks; spec store loads what was saved; accessors re-evaluated after an in-place change of the attribute (no per-target memo); the hash recorded at submission equals the one the next invocation computes; FileSpecHashes.__exit__ persists on every exit", W),
+ "C02": ("; filter_names evaluated over 15 pattern sets x list/one-shot iterables; opaque job ids (0 is a valid id); composition with C01 for the 'stale' column; the three <X>Ops evaluated against a model of the schedulers' command lines: 8 submissions on one Ops object (0..2050 prerequisites) and a job history with purged/finished jobs; submit functions are called only by schedule()", W),
+ "C03": ("; relative results must be anchored (abspath); Graph.from_targets evaluated over 11 witness workflows in several definition orders; non-dict Mappings flatten to their values; distinct file names (case, Unicode normal form, blanks) stay distinct; accessors re-evaluated after an in-place change", W),
+ "C04": ("; witness workflows (self-loop, unreachable 2-cycle, 3-cycle behind a tail, duplicate producers across spellings, missing source) evaluated through Graph.from_targets; stat snapshot per instance and per call; accessors re-evaluated after an in-place change (a rebuilt graph sees the new files)", W),
+ "C05": ("; the group callback evaluated for found / not found / prompt declined; name filter over list and one-shot iterables; flag defaults; the backend constructor's state query reaches no submit/cancel/delete and changes nothing in the modelled queue; submit functions are called only by schedule()", W),
+ "C06": ("; L7: the record made at an accepted submission is what the next invocation computes and survives the invocation (C01.R7); the scheduler command-line model through C07.R1 and C08.R1", W),
+ "C07": ("; the pool server's connection handler, the client and enqueue_task evaluated on one session; composition with C02.R2 and C08.R3; submit_target of all three cluster backends against the schedulers' command-line model (a repeated option replaces the earlier one; 1025 and 2050 prerequisites; a refused submission is not repeated with fewer prerequisites; state shared between submissions); local ids 0 and 3", W),
+ "C08": ("; Slurm state query evaluated with failing sacct/squeue; factory default accounting on; config switch read-back; store load/close round trip; get_job_states of all three cluster backends against the command-line model over a job history (purged, running, failed, pending, completed with a failed step, held, errored) in both file orders with accounting on and off; ids 0 and 1 at start-up", W),
+ "C09": ("; state-query failures of all three cluster backends propagate; load(file)=table and close-after-submit scenarios evaluated; a submission the scheduler refuses or answers without a job id raises; a refused cancel leaves the accepted job tracked", W),
+ "C10": ("; clean_logs config switch read-back; Slurm log_mode factory default; a uniformly indented multi-line spec with a here-document reaches `target << spec`, the spec field and all three script builders byte for byte; a target's options dict is its own object", W),
+ "C11": ("; enqueue_task hands deps on unchanged (no rebinding); the task coroutine evaluated over dependency outcomes incl. late submission; dependency ids (0 included) travel unchanged TrackingBackend.submit -> LocalOps -> wire", W),
+ "C12": ("; composition with C13.R6: a released core corresponds to a SIGKILLed, reaped process group; semaphore balance of the evaluated coroutine under a cancellation at every await; `gwf workers -n` converted by the declared click type and evaluated: an integral count equal to the one given; release guards are per task (locals or state keyed by the task id)", W),
+ "C13": ("; SIGKILL to the group on every exit with a process; no use of the process on the no-process path; no bare wait() on undrained PIPEs; RUNNING while the process runs; enqueue registers SUBMITTED; `gwf workers` starts the pool for the project directory; time-out after the shell was reaped still SIGKILLs the group", W),
+ "C14": ("; nothing shared between connections is held across a client-paced await; connection handler / client / enqueue evaluated on well-formed, EOF-only, shutdown and unknown-kind sessions; log handlers defined by gwf keep the emit()/handleError contract", W),
+ "C15": ("; name filter witness table; --all/--force flag defaults; no recursive delete; no symlink resolution between a declared output and the delete; protect entries survive the workflow API whatever their spelling", W),
+ "C16": ("; name filter witness table (through the shared cone-selection rule); projects with redundant shortcut edges, sets iterated in both orders; the reader of modification times follows links like touch's writer (C01.R6)", W),
+ "C17": ("; the cancel command evaluated over selections x prompt x each failure kind at each position; a refused cancel leaves the job tracked; scancel's exit-0 failure output raises BackendError; server/client cancel_task path; backends.utils.call raises/re-raises only BackendError and converts a time-limit expiry; job id 0; tracked ids persist until replaced", W),
+ "C18": ("; config switch read-back; run inside the store's with-block; store load round trip; a submission answered without a job id raises (no hash); optional settings keep the store anchored in the project directory", W),
+ "C19": ("; find_workflow evaluated over 10 directory-tree rows incl. termination at the root; no read of the invoking directory at import time; the group callback's locations evaluated; find_workflow on trees with symbolic links and '..'; duplicate names within one map() call; cluster scripts cd into the target's directory", W),
+ "C20": ("; cli.main evaluated over the full flag x config x env tables for backend (4) and colour (18), verbosity reaches logging; create_backend evaluated; accounting switch decides sacct also under failure; config file location; overwriting a stored value with one that compares equal across types (yes/1, 0/no); the workflow file's location is not symlink-resolved", W),
 }
 checks = []
 for pid, (text, note, tech) in sorted(P.items()):
@@ -108,7 +109,7 @@ m = {
     "engines": [{"name": "gwfsa", "path": "/verif/gwfsa", "serves_properties": sorted(P),
                  "kind_free_text": "repository-specific static analyser (stdlib ast only): program index + callee resolution, structured path exploration with finite domains and exception edges, context-sensitive effect reachability, constant/table evaluation, template-domain evaluation of pure builders, regex-AST facts"}],
     "checks": checks,
-    "notes": "Exit codes: 0 pass (KNOWN-FINDING lines allowed), 1 VIOLATION, 2 ANALYSIS-ERROR (anchor vanished / checker failure). Known findings: /verif/KNOWN_FINDINGS.txt. The thorough tier additionally runs the rules on in-memory variants (mutants/*.json and seeded/*/patch.diff) and records the detection matrix in the evidence file.",
+    "notes": "Exit codes: 0 pass (KNOWN-FINDING lines allowed), 1 VIOLATION, 2 ANALYSIS-ERROR (anchor vanished / checker failure). Known findings: /verif/KNOWN_FINDINGS.txt. The thorough tier additionally runs the rules on in-memory variants (mutants/*.json, seeded/*/patch.diff must be reported, refactorings/*/patch.diff must stay silent) and records the detection matrix in the evidence file.",
     "not_applicable": [],
 }
 json.dump(m, open(os.path.join(VERIF, "MANIFEST.json"), "w"), indent=1)
